@@ -627,7 +627,7 @@ PROPS["C12"] = {
     "modules": ["WhatIs.Props.C12"],
     "theorems": ["WhatIs.C12.reserialize_exact", "WhatIs.C12.parsed_length", "WhatIs.C12.fingerprint_rfc4880", "WhatIs.C12.kdf_witness", "WhatIs.C12.kdf_keeps_extra", "WhatIs.C12.reserialize_exact_full", "WhatIs.C12.fingerprint_rfc4880_full",
                  "WhatIs.C12.mpi_bits_declared", "WhatIs.C12.lifetime_zero_is_never", "WhatIs.C12.expiry_spec", "WhatIs.C12.expiry_zero_witness", "WhatIs.C12.frame_new", "WhatIs.C12.frame_old", "WhatIs.C12.frame_partial",
-                 "WhatIs.C12.sig_selfsig_readback", "WhatIs.C12.sig_area_in_order", "WhatIs.C12.sig_hash_suffix", "WhatIs.C12.sig_created_required", "WhatIs.C12.sig_unknown_subpacket"],
+                 "WhatIs.C12.sig_selfsig_readback", "WhatIs.C12.sig_area_in_order", "WhatIs.C12.sig_hash_suffix", "WhatIs.C12.sig_created_required", "WhatIs.C12.sig_nesting_fuel", "WhatIs.C12.sig_unknown_subpacket"],
     "facts": {"pgp.lifetimeZeroIsNever": True, "pgp.kdfKeepsExtra": True},
     "nontrivial": nt_c12,
     "rule": "v4 keys written by the harness's OWN OpenPGP writer (own packet framing, own framing of signed data, signatures made with the "
@@ -649,9 +649,8 @@ PROPS["C12"] = {
                   "is expiry_spec. Tied by the pgpsig operation (14,000 / 49,000 packets incl. every subpacket type x placement x critical "
                   "bit x length, all 256 flag octets, all length-form boundaries, nested embedded signatures, truncations, substitutions).",
     "level_note": "Trusted: Lean kernel; SHA-1 as an abstract function; the harness's OpenPGP writer as ground truth; curve-point validity "
-                  "checks of the real parser are not modelled (it accepts a subset of the model); the nesting fuel of embedded signatures in "
-                  "the signature model is the input length (not proved to be never exhausted; explored with nested packets). GnuPG is not "
-                  "installed: no second reference.",
+                  "checks of the real parser are not modelled (it accepts a subset of the model); the nesting fuel of embedded signatures is proved never to be exhausted "
+                  "(sig_nesting_fuel). GnuPG is not installed: no second reference.",
     "technique": "Lean 4 proof (parse/serialise round trip for all inputs; length bound; RFC 4880 §12.2 fingerprint input; signature-packet reader against an RFC 4880 §5.2.3 writer) + differential correspondence against an independent OpenPGP writer",
     "trusted_base": ["harness OpenPGP writer + Go crypto (reference fingerprints, signatures)", "vendored packet parser is what is modelled"],
     "assumptions": ["SHA-1 is a function of its input"],
